@@ -16,6 +16,7 @@ ID = "C03"
 LEAN_TARGETS = ["PV.Props.C03"]
 # T-D: functions translated from the source by harness/pytrans.py, proved equal to the model (DESIGN section 0)
 EQUIV = {"PV.Equiv.TranslatedPasses": ["loop_eq", "zeroCrossings_lt", "get_next_passes_eq"]}
+EQUIV.update({"PV.Equiv.TranslatedParab": ["loop_eq", "get_max_parab_eq"], "PV.Equiv.TranslatedParabReal": ["get_max_parab_real", "get_max_parab_quadratic"]})      # T-D
 RULE = ("cases (TLE, observer, start, length, horizon): TLEs = the near-earth element sets of pyorbital's tests / SGP4-VER "
         "plus as many random 'leo' and 'near' (eccentric, period < 225 min) element sets from tlegen; start = epoch +- 3 d; "
         "length 1-14 h (quick) / 1-72 h (thorough); horizon in {0,5,10,30,60} deg or, for grazing cases, the peak elevation of "
